@@ -261,9 +261,11 @@ def _renamings(ctx):
                 "rank's shape for the new lower rank", text_="_splitGeneric shape")
     f = ctx.method("Tensor", "swapRanks")
     src = "\n".join(text(s) for s in f.body).replace(" ", "")
-    e1 = pat.msearch(src, "$I=$R[depth]")
-    if e1 and pat.msearch(src, "$R[depth]=$R[depth+1]", e1) and \
-            pat.msearch(src, "$R[depth+1]=$I", e1):
+    e0 = pat.msearch(src, "$R=copy.deepcopy(self.getRankIds())")
+    e1 = e0 and pat.msearch(src, "$I=$R[depth]", e0)
+    if (e1 and pat.msearch(src, "$R[depth]=$R[depth+1]", e1) and
+            pat.msearch(src, "$R[depth+1]=$I", e1)) or \
+            (e0 and pat.msearch(src, "$R[depth],$R[depth+1]=($R[depth+1],$R[depth])", e0)):
         ctx.ok("C14.R1", f, f.node, "swap exchanges the two adjacent rank ids",
                text_="swapRanks renaming")
     else:
